@@ -75,9 +75,9 @@ func SessionC10(t *tape.Tape) *core.RunResult {
 		}
 		var pc posCmd
 		kind := "unrelated"
-		ks := []int{4, 0, 0, 0, 0} // unrelated | extension | same again | shortened | prefix trap
+		ks := []int{4, 0, 0, 0, 0, 0} // unrelated | extension | same again | shortened | prefix trap | same position as a FEN
 		if have {
-			ks = []int{3, 5, 2, 2, 2}
+			ks = []int{3, 5, 2, 2, 2, 2}
 		}
 		switch t.Weighted(ks) {
 		case 0:
@@ -108,6 +108,14 @@ func SessionC10(t *tape.Tape) *core.RunResult {
 			if n := len(gm.Moves); n > 0 {
 				gm.Moves = gm.Moves[:n-1-t.Choose(min(n, 4))]
 			}
+			pc = buildPosCmd(gm.Start.FEN(gm.StartHalf, gm.StartFull), gm)
+		case 5:
+			// the position the engine already stands on, but described as a bare FEN (+ moves): a game
+			// without the history that led there
+			kind = "same-position-as-fen"
+			cur := last.game.Pos()
+			gm := &rules.Game{Start: cur, StartHalf: last.game.Half(), StartFull: last.game.Full()}
+			randomLine(t, gm, t.Choose(5), t.Choose(10))
 			pc = buildPosCmd(gm.Start.FEN(gm.StartHalf, gm.StartFull), gm)
 		case 4:
 			// the previous text is a proper string prefix of the new one without the new one continuing it:
